@@ -80,7 +80,7 @@ func C06_seq() {
 		if i == 0 {
 			wantOp = byte(op)
 		}
-		hdr := vAnd(f.op == wantOp, vAnd(f.rsv == 0, vAnd(f.masked == !server, f.fin == (i == len(fs)-1))))
+		hdr := vAnd(f.op == wantOp, vAnd(f.rsv == vWantRsv(f.op), vAnd(f.masked == !server, f.fin == (i == len(fs)-1))))
 		vAssert(hdr, "seq.frame_header")
 		sent = append(sent, f.payload...)
 	}
